@@ -41,7 +41,7 @@ func (f *frame) call(site siteT, cc *ssa.CallCommon) Val {
 			env.vars["r0"] = env.vars["r"]
 		}
 		for _, cl := range ac.Assumes {
-			f.c.assume(implies(f.guard, f.evalClause(env, cl)))
+			f.assumeClause(env, cl, f.guard)
 			f.c.assumed[fmt.Sprintf("assumed at call %s#%d: %s", ac.Callee, ac.Ordinal, cl.Text)] = true
 		}
 	}
@@ -486,8 +486,7 @@ func (f *frame) callByContract(site siteT, ct *Contract, key string, sig *types.
 		if strings.Contains(en.Text, "local(") {
 			continue // clauses over the callee's locals are not visible to callers
 		}
-		g := f.evalClause(post, en)
-		c.assume(implies(f.guard, g))
+		f.assumeClause(post, en, f.guard)
 		f.noteDynTypes(en.E, post, site, res)
 	}
 	if n == 0 {
@@ -917,11 +916,17 @@ func (f *frame) builtinAppend(site siteT, cc *ssa.CallCommon, args []Val) Val {
 		c.assume(Term{fmt.Sprintf("(forall ((%s Int)) (! (=> (and (<= 0 %s) (< %s %s)) (= (select %s (+ %s %s)) (select %s (+ %s %s)))) :pattern ((select %s (+ %s %s)))))",
 			qi, qi, qi, n.S, newInner.S, roff.S, qi, oldInner.S, sOff(s).S, qi, newInner.S, roff.S, qi), SBool})
 		// appended part
-		c.assume(Term{fmt.Sprintf("(forall ((%s Int)) (=> (and (<= 0 %s) (< %s %s)) (= (select %s (+ %s %s %s)) %s)))",
-			qi, qi, qi, m.S, newInner.S, roff.S, n.S, qi, srcAt(qT).S), SBool})
+		c.assume(Term{fmt.Sprintf("(forall ((%s Int)) (! (=> (and (<= 0 %s) (< %s %s)) (= (select %s (+ %s %s %s)) %s)) :pattern ((select %s (+ %s %s %s)))))",
+			qi, qi, qi, m.S, newInner.S, roff.S, n.S, qi, srcAt(qT).S, newInner.S, roff.S, n.S, qi), SBool})
 		// in place: everything outside the appended window is unchanged
-		c.assume(implies(inplace, Term{fmt.Sprintf("(forall ((%s Int)) (=> (or (< %s (+ %s %s)) (>= %s (+ %s %s))) (= (select %s %s) (select %s %s))))",
-			qi, qi, sOff(s).S, n.S, qi, sOff(s).S, total.S, newInner.S, qi, oldInner.S, qi), SBool}))
+		c.assume(implies(inplace, Term{fmt.Sprintf("(forall ((%s Int)) (! (=> (or (< %s (+ %s %s)) (>= %s (+ %s %s))) (= (select %s %s) (select %s %s))) :pattern ((select %s %s))))",
+			qi, qi, sOff(s).S, n.S, qi, sOff(s).S, total.S, newInner.S, qi, oldInner.S, qi, newInner.S, qi), SBool}))
+		// the same two facts indexed absolutely, with the read of the new array as trigger (what the
+		// solvers' E-matching and the instantiation prover can use directly)
+		c.assume(Term{fmt.Sprintf("(forall ((%s Int)) (! (=> (and (<= %s %s) (< %s (+ %s %s))) (= (select %s %s) (select %s (+ %s (- %s %s))))) :pattern ((select %s %s))))",
+			qi, roff.S, qi, qi, roff.S, n.S, newInner.S, qi, oldInner.S, sOff(s).S, qi, roff.S, newInner.S, qi), SBool})
+		c.assume(Term{fmt.Sprintf("(forall ((%s Int)) (! (=> (and (<= (+ %s %s) %s) (< %s (+ %s %s))) (= (select %s %s) %s)) :pattern ((select %s %s))))",
+			qi, roff.S, n.S, qi, qi, roff.S, total.S, newInner.S, qi, srcAt(Term{fmt.Sprintf("(- %s (+ %s %s))", qi, roff.S, n.S), SInt}).S, newInner.S, qi), SBool})
 	}
 	c.heapSet(f.heap, key, store(c.heapGet(f.heap, key, esort), rbase, newInner))
 	return res
@@ -980,10 +985,10 @@ func (f *frame) builtinCopy(site siteT, cc *ssa.CallCommon, args []Val) Val {
 	newInner := c.fresh("copydata", inner)
 	c.counter["q"]++
 	qi := quote(fmt.Sprintf("q i %d", c.counter["q"]))
-	c.assume(Term{fmt.Sprintf("(forall ((%s Int)) (=> (and (<= 0 %s) (< %s %s)) (= (select %s (+ %s %s)) %s)))",
-		qi, qi, qi, n.S, newInner.S, sOff(dst).S, qi, srcAt(qi)), SBool})
-	c.assume(Term{fmt.Sprintf("(forall ((%s Int)) (=> (or (< %s %s) (>= %s (+ %s %s))) (= (select %s %s) (select %s %s))))",
-		qi, qi, sOff(dst).S, qi, sOff(dst).S, n.S, newInner.S, qi, oldInner.S, qi), SBool})
+	c.assume(Term{fmt.Sprintf("(forall ((%s Int)) (! (=> (and (<= 0 %s) (< %s %s)) (= (select %s (+ %s %s)) %s)) :pattern ((select %s (+ %s %s)))))",
+		qi, qi, qi, n.S, newInner.S, sOff(dst).S, qi, srcAt(qi), newInner.S, sOff(dst).S, qi), SBool})
+	c.assume(Term{fmt.Sprintf("(forall ((%s Int)) (! (=> (or (< %s %s) (>= %s (+ %s %s))) (= (select %s %s) (select %s %s))) :pattern ((select %s %s))))",
+		qi, qi, sOff(dst).S, qi, sOff(dst).S, n.S, newInner.S, qi, oldInner.S, qi, newInner.S, qi), SBool})
 	c.heapSet(f.heap, key, store(arr, sBase(dst), newInner))
 	return n
 }
